@@ -47,6 +47,8 @@ impl JmespathError {
 
     /// Create a new JMESPath Error from a Context struct.
     pub fn from_ctx(ctx: &Context<'_>, reason: ErrorReason) -> JmespathError {
+        #[cfg(jmespath_rs_verif)]
+        crate::verif_hooks::point("error");
         JmespathError::new(ctx.expression, ctx.offset, reason)
     }
 }
